@@ -1,5 +1,6 @@
 import Driver.Util
 import KavaVerif.Model.Hard
+set_option linter.unusedVariables false
 /-!
   C08 driver.  One self-contained case per line (written by harness/cmd/c08):
 
@@ -241,6 +242,15 @@ def predRepay (cfg : Cfg) (nd : Nat) (pre post : St) (sender owner : Nat) (coins
     else "ok"
   | _ => "ok"
 
+/-- `GetSyncedDeposit` / `GetSyncedBorrow` of every user as the model computes them, in the harness's format -/
+def syncedModel (nu nd : Nat) (s : St) : String :=
+  let row (amt : Nat → Int) (ix : Nat → Option Int) (g : Nat → Option Int) : String :=
+    let rs := (List.range nd).map (fun d => if 0 < amt d then loadSyncedAmt (amt d) (ix d) (g d) else .ok (amt d))
+    if rs.any (fun r => !r.isOk) then "p"
+    else ",".intercalate (rs.map (fun r => match r with | .ok v => toString v | _ => "p"))
+  ";".intercalate ((List.range nu).map (fun u => row (s.dep u) (s.depIdx u) s.supIdx)) ++ "|" ++
+  ";".intercalate ((List.range nu).map (fun u => row (s.bor u) (s.borIdx u) s.brwIdx))
+
 /-! ### the handler -/
 
 def handle : Handler
@@ -253,7 +263,19 @@ def handle : Handler
       match runOp kind cfg pre a b coins extra with
       | none => badInput "op"
       | some res =>
+        if result == "panic:hook" then
+          -- the incentive hook (outside the model) panics on an interest factor below one: consequence of a
+          -- supply index that decreased (C08_supply_index_monotone); anything else is unexplained
+          let below (o : Option Int) : Bool := match o with | some v => decide (v < P) | none => false
+          if (List.range nd).any (fun d => below (pre.supIdx d) || (rows nu).any (fun u => below (pre.depIdx u d))) then
+            predfail "C08_supply_index_monotone" "index-below-one-hook-panic"
+          else mismatch "result" (resS res) result
+        else
         if resS res != result then mismatch "result" (resS res) result
+        else if syncedModel nu nd pre != spre then mismatch "synced-queries" (syncedModel nu nd pre) spre
+        else if kind == "begin" && result == "panic" then
+          predfail "C08_accrue_no_panic" (if (List.range nd).any (fun d => pre.borrowed d != 0 && pre.cash d + pre.borrowed d - pre.reserves d == 0)
+            then "utilization-div-zero" else "other")
         else
         match res with
         | .ok s' =>
@@ -280,5 +302,19 @@ def handle : Handler
     | _, _, _, _, _ => badInput "parse"
   | _ => badInput "arity"
 
-def handlers : List (String × Handler) := [("c08.op", handle)]
+/-- pure correspondence of the sync formulas: `a ui g => SyncSupplyInterest SyncBorrowInterest GetSyncedDeposit GetSyncedBorrow` -/
+def handleSync : Handler
+  | [a, ui, g, _, sup, bor, qd, qb] =>
+    match int? a, int? ui, int? g with
+    | some a, some ui, some g =>
+      let showR (r : Res Int) : String := match r with | .ok v => toString v | _ => "p"
+      let mSup := if syncSupPanics (some ui) then "p" else toString (syncSupAmt a (some ui) g)
+      let mBor := if syncBorPanics a (some ui) g then "p" else toString (syncBorAmt a (some ui) g)
+      let mQ := showR (loadSyncedAmt a (some ui) (some g))
+      allOk [expectEq "syncSupply" mSup sup, expectEq "syncBorrow" mBor bor,
+             expectEq "getSyncedDeposit" mQ qd, expectEq "getSyncedBorrow" mQ qb]
+    | _, _, _ => badInput "ints"
+  | _ => badInput "arity"
+
+def handlers : List (String × Handler) := [("c08.op", handle), ("c08.sync", handleSync)]
 end Drv.C08
